@@ -15,6 +15,7 @@ import (
 	"strconv"
 	"strings"
 	"sync"
+	"sync/atomic"
 	"time"
 
 	"github.com/hashicorp/memberlist"
@@ -1475,17 +1476,30 @@ func init() {
 		if len(a) >= 2 {
 			opts = append(opts, olric.Count(atoi(a[1])))
 		}
+		// scan requests served by the members (all of them: they live in this process) during the iteration
+		var reqs int64
+		verifhook.SetPoint("scan.request", func() { atomic.AddInt64(&reqs, 1) })
+		defer verifhook.SetPoint("scan.request", nil)
 		it, err := d.Scan(ctx, opts...)
 		if err != nil {
 			return errClass(err)
 		}
 		defer it.Close()
+		// slow=<i>: the consumer takes its time (1.1 s, real time: longer than the iterator's routing-table refresh
+		// interval) with the i-th key
+		slowAt := -1
+		if len(a) >= 3 && strings.HasPrefix(a[2], "slow=") {
+			slowAt = atoi(a[2][5:])
+		}
 		var keys []string
 		for n := 0; it.Next() && n < 100000; n++ {
 			keys = append(keys, hx([]byte(it.Key())))
+			if n+1 == slowAt {
+				time.Sleep(1100 * time.Millisecond)
+			}
 		}
 		sort.Strings(keys)
-		return "n=" + strconv.Itoa(len(keys)) + " " + strings.Join(keys, " ")
+		return "n=" + strconv.Itoa(len(keys)) + ";reqs=" + strconv.FormatInt(atomic.LoadInt64(&reqs), 10) + " " + strings.Join(keys, " ")
 	}))
 	// c.rawscan <dmap> <match hex|*> <count> [rc]: raw DM.SCAN cursors, partition by partition, each sent to the partition's
 	// primary owner (with "rc": to its first backup owner, replica copy), from cursor 0 until the cursor comes back 0.
